@@ -18,11 +18,13 @@ def main():
     pid, sdir = sys.argv[1], sys.argv[2].rstrip('/')
     name = None
     tiers = ['quick', 'thorough']
+    note = None
     args = sys.argv[3:]
     while args:
         a = args.pop(0)
         if a == '--keep-as': name = args.pop(0)
         elif a == '--tiers': tiers = args.pop(0).split(',')
+        elif a == '--note': note = args.pop(0)
     name = name or f"{pid}-{os.path.basename(sdir)}"
     demo_txt = open(f"{sdir}/demo.txt").read()
     m = re.search(r'([\w\-]+/tests/[\w\-]+\.rs)', demo_txt)
@@ -92,6 +94,18 @@ def main():
         os.makedirs(out_dir, exist_ok=True)
         for f in ['patch.diff', 'demo.rs', 'demo.txt', 'notes.md']:
             if os.path.exists(f"{sdir}/{f}"): shutil.copy(f"{sdir}/{f}", f"{out_dir}/{f}")
+        # keep what earlier runs of the checks said about this change (e.g. "missed", before a
+        # check was strengthened)
+        history = []
+        if os.path.exists(f"{out_dir}/meta.json"):
+            old = json.load(open(f"{out_dir}/meta.json"))
+            history = old.get('history', [])
+            if old.get('detected_by') != detected_by:
+                history.append({'earlier_result': 'missed by quick and thorough' if old.get('detected_by') is None else f"detected by {old.get('detected_by')}", 'checks_run': [r for r in old.get('ran', []) if 'bin/check' in r.get('cmd', '')]})
+        if history: meta['history'] = history
+        if note: meta['strengthening'] = note
+        elif os.path.exists(f"{out_dir}/meta.json") and 'strengthening' in json.load(open(f"{out_dir}/meta.json")):
+            meta['strengthening'] = json.load(open(f"{out_dir}/meta.json"))['strengthening']
         json.dump(meta, open(f"{out_dir}/meta.json", 'w'), indent=1)
         print(f"kept as {out_dir}; detected_by={detected_by}")
     else:
